@@ -583,7 +583,15 @@ class MatrixRelationshipSet(RelationshipSet):
         stats[id_col] = stat_vocab.ids(stats[s_col])
         del stats[s_col]
         stats.set_index(id_col, inplace=True)
-        stats = stats.reindex(stat_vocab.index, fill_value=0)
+        # entities without records: zero counts and no time (date-time columns cannot hold 0)
+        stats = pd.DataFrame(
+            {
+                name: col.reindex(
+                    stat_vocab.index, fill_value=pd.NaT if col.dtype.kind == "M" else 0
+                )
+                for name, col in stats.items()
+            }
+        )
         if "mean_rating" in stats.columns:
             stats.loc[stats["rating_count"] == 0, "mean_rating"] = np.nan
         if "first_time" in stats.columns:
